@@ -30,6 +30,13 @@ THEOREMS = [
     "Qentem.Props.C13.sort_keeps_lookups",
     "Qentem.Props.C13.sort_orders_keys_of_sorted",
     "Qentem.Props.C13.sort_orders_keys",
+    "Qentem.Props.C13.tree_copy_dst_eq_src",
+    "Qentem.Props.C13.tree_copy_unrelated_unchanged",
+    "Qentem.Props.C13.tree_assign_dst_eq_src",
+    "Qentem.Props.C13.tree_move_dst_eq_src",
+    "Qentem.Props.C13.tree_get_stored",
+    "Qentem.HashTree.getAt_setAt_self",
+    "Qentem.HashTree.getAt_setAt_incomparable",
     "Qentem.HashTable.sortSeg_of_checked",
     "Qentem.HashTable.sortSeg_sorted",
     # the lemmas the step theorem rests on (one per routine)
@@ -280,6 +287,13 @@ def run(ctx):
         return
     rng = ctx.rng
 
+    # ---- recorded finding: allocation size wraps in 32-bit SizeT for requests of >= 2^27..2^30 slots
+    wo, wf = core.run_lines(exe, ["htwrap x"])
+    if wo[0].startswith("FAULT"):
+        ctx.fail("alloc-size-wrap", "HList h; h.Reserve(1u<<30); h.Insert(\"a\") faults (%s): the allocation size wraps in 32-bit SizeT" % wo[0],
+                 {"line": "htwrap x", "stderr": wf[0][2] if wf else ""})
+    ctx.count("alloc-size-wrap-probe", 1, 1)
+
     # ---- the hash function: C++ vs model (vs the python copy used to pick colliding keys)
     hl = ["hthash " + ks(list(t)) for n in (0, 1) for t in itertools.product(range(256), repeat=n)]
     sub = [0, 1, 2, 31, 32, 65, 97, 98, 122, 126, 127, 128, 129, 200, 254, 255]
@@ -345,6 +359,9 @@ def run(ctx):
             # recorded by ctx.correspond above, not a failure of the ordered-map property
     ctx.count("ordered-map oracle (Lean Slots spec + std::vector reference) on C++ results, steps", n_steps, len(set(lines)))
 
+    # ---- nested tables: HArray whose values hold HArrays; related sources and destinations
+    from checks import _hashtree
+    _hashtree.run(ctx, drv)
     ctx.notes.append("corpus lines %d, exhaustive short sequences %d, random sequences %d" % (n_corpus, n_exh, len(lines) - n_corpus - n_exh))
     ctx.assumptions += [
         "hash function is a parameter H with H k != 0 in every table theorem; StringUtils::Hash is modelled separately (32-bit wrap, signed char conversion) and compared with the C++ on all keys of length <= 1, pairs/triples over boundary bytes and random keys",
